@@ -39,12 +39,17 @@ def generate(ctx):
                           method=method, th=th, bk=bk, family=s['family']))
     return cases
 
+_objs = {}
 def _run(c, sig, center):
     from bycycle.features import compute_features
-    bk = dict(c['bk']) if c['bk'] else None
-    if bk and 'amp_threshes' in bk: bk['amp_threshes'] = tuple(bk['amp_threshes'])
-    return implutil.quiet(compute_features, sig, c['fs'], tuple(c['f_range']), center_extrema=center, burst_method=c['method'], burst_kwargs=bk,
-                          threshold_kwargs=(dict(c['th']) if c['th'] else {}), find_extrema_kwargs=implutil.fe_kwargs(c['fk'], c['boundary'], None))
+    if id(c) not in _objs:       # both mirrored runs of one case use the SAME option objects
+        _objs.clear()
+        bk = dict(c['bk']) if c['bk'] else None
+        if bk and 'amp_threshes' in bk: bk['amp_threshes'] = tuple(bk['amp_threshes'])
+        _objs[id(c)] = (bk, dict(c['th']) if c['th'] else {}, implutil.fe_kwargs(c['fk'], c['boundary'], None))
+    bk, th, fek = _objs[id(c)]
+    return implutil.twice(lambda: implutil.quiet(compute_features, sig, c['fs'], tuple(c['f_range']), center_extrema=center, burst_method=c['method'], burst_kwargs=bk,
+                                                 threshold_kwargs=th, find_extrema_kwargs=fek), [sig, bk, th, fek], 'compute_features')
 
 def _shape_rows(df):
     return '[' + ','.join('[' + ','.join((str(int(df[col].values[i])) if k in INT else proto.enc_rat(float(df[col].values[i]))) for k, col in enumerate(SHAPE)) + ']'
@@ -64,6 +69,8 @@ def evaluate(ctx, cases):
             p = _run(c, -x, 'peak')
         except Exception as e:
             errs.append('peak-centred run of -x raised ' + type(e).__name__ + ': ' + str(e)[:60])
+        if any('HistoryDependence' in e for e in errs):
+            plan.append(dict(asym=[e for e in errs if 'HistoryDependence' in e][0])); continue
         if len(errs) == 2:
             plan.append(dict(skip=errs[0])); continue
         if len(errs) == 1:
